@@ -585,3 +585,16 @@ Proof.
   destruct (bsend_moves _ _ _ _ _ _ E) as (X1 & M1 & R1).
   split; [reflexivity|]. split; [tauto|]. split; [exact G0|]. split; assumption.
 Qed.
+
+(** ** MsgUpdateParams: only the authority, only valid parameters; nothing but the parameters changes *)
+Lemma exec_update_params_spec s auth p s' r : exec_update_params s auth p = Ret (s', r) ->
+  r = [] /\ auth = acct_gov /\ params_valid p = true
+  /\ led s' = led s /\ sup s' = sup s /\ same_reg s s' /\ now s' = now s /\ par s' = p.
+Proof.
+  unfold exec_update_params. intros H. do 3 mstep H. apply ret_inj in H. inversion H; subst s' r; clear H.
+  b2p G1. simpl. repeat split; auto.
+Qed.
+
+Lemma params_valid_range p : params_valid p = true ->
+  0 < p_fee p < P18 /\ 0 <= p_cdenom p /\ 0 < p_camt p < 2 ^ 255 /\ 0 < p_tax p < P18 /\ 0 <= p_ufee p < P18.
+Proof. unfold params_valid. intros H. b2p H. lia. Qed.
